@@ -27,8 +27,8 @@ GROUPS.append(dict(name='decode_frame_fs8000', tier='off', cls='F', tu='C01_deco
 # concrete shapes (channels, TOC duration in 2.5 ms units, output buffer in samples at 8 kHz): exact-size output object
 _SHAPES = [  # (channels, tocf, buf, tier)
    (2, 1, 20, 'quick'), (1, 2, 40, 'thorough'), (2, 4, 80, 'thorough'), (1, 8, 160, 'thorough'),    # buffer == TOC duration
-   (1, 4, 79, 'quick'), (2, 8, 100, 'thorough'),                                                   # buffer smaller than the TOC duration
-   (1, 1, 60, 'quick'), (2, 2, 60, 'thorough'), (1, 8, 220, 'thorough'),                           # PLC / FEC requests longer than the frame (7.5 ms remainders: 60 = 3 x 2.5 ms, 220 = 20 + 7.5 ms)
+   (1, 4, 79, 'thorough'), (2, 8, 100, 'thorough'),                                                   # buffer smaller than the TOC duration
+   (1, 1, 60, 'thorough'), (2, 2, 60, 'thorough'), (1, 8, 220, 'thorough'),                           # PLC / FEC requests longer than the frame (7.5 ms remainders: 60 = 3 x 2.5 ms, 220 = 20 + 7.5 ms)
    (1, 16, 320, 'thorough'), (2, 24, 480, 'thorough'), (1, 8, 960, 'thorough'), (2, 8, 330, 'thorough'),
 ]
 for (_ch, _tf, _buf, _tier) in _SHAPES:
